@@ -27,6 +27,9 @@ for cpuname, (unit, maxlen, unw, tier, tables, two) in CPUS.items():
                         functions=[("disasm_%s" % cpu, "disasm/%s.cpp" % cpu, "harness; table scans closed by unwinding %d with unwinding assertions" % unw),
                                    ("table_%s[]" % cpu, "table/%s.cpp" % cpu, "data")],
                         defines=defs, unwind=unw, checks=CH, timeout=900, tier=tier))
+GROUPS.append(Group(name="C08/UtilContext.disasm.pages[bounded]", unity="C19/u_util.cpp", entry="h_disasm_pages",
+                    functions=[("UtilContext::disasm(uint32_t, uint32_t)", "core/UtilContext.cpp", "harness, bounded")], defines=["WIDTH=1"],
+                    unwind=8, checks=CH, timeout=900, bounded="address ranges touching at most 4 pages of 64 KiB; which pages are in use and their used sub-ranges symbolic"))
 LEVEL = "proof"
 TRUSTED = ["snprintf/sprintf replaced by a format-aware worst-case contract (contracts/common/st_fmt.c): size argument must fit the destination, output length = sum of per-conversion upper bounds",
            "Memory replaced by a 16-byte symbolic window starting at the instruction's address; an access outside it fails the locality obligation"]
